@@ -54,8 +54,8 @@ Fixpoint splitlines_keep (x : str) : list str :=
   | c :: t =>
       if c =? 13 then
         match t with
-        | 10 :: t' => [13; 10] :: splitlines_keep t'
-        | _ => [13] :: splitlines_keep t
+        | d :: t' => if d =? 10 then [13; 10] :: splitlines_keep t' else [13] :: splitlines_keep t
+        | [] => [13] :: splitlines_keep t
         end
       else if is_linebreak c then [c] :: splitlines_keep t
       else match splitlines_keep t with
